@@ -126,10 +126,12 @@ def gen_wellformed(kind: str) -> t.Iterator[t.Tuple[t.Any, t.Callable[[], t.Any]
                             return R.Request(header=hdr(R, 0, 3 | (0x80 if obj else 0), len(ref), tl or 0), sec_trailer=tr_obj, alloc_hint=1000 + slen, context_id=2, opnum=0x1234, obj=obj, stub_data=stub)
 
                     elif kind == "response":
-                        ref = rpc.enc_response(7, 2, stub, tr_ref, 3, 5, 1000 + slen)
+                        hint = [1000 + slen, 0, slen, max(slen - 3, 0)][slen % 4]  # alloc_hint is only a hint: larger, absent (0), exact, smaller
 
-                        def mk(stub=stub, tr_obj=tr_obj, ref=ref, tl=tl, slen=slen):
-                            return R.Response(header=hdr(R, 2, 3, len(ref), tl or 0), sec_trailer=tr_obj, alloc_hint=1000 + slen, context_id=2, cancel_count=5, stub_data=stub)
+                        ref = rpc.enc_response(7, 2, stub, tr_ref, 3, 5, hint)
+
+                        def mk(stub=stub, tr_obj=tr_obj, ref=ref, tl=tl, hint=hint):
+                            return R.Response(header=hdr(R, 2, 3, len(ref), tl or 0), sec_trailer=tr_obj, alloc_hint=hint, context_id=2, cancel_count=5, stub_data=stub)
 
                     else:
                         ref = rpc.enc_fault(7, 2, 0x1C010003, stub, tr_ref, 3, 1, 1, 1000 + slen)
